@@ -28,9 +28,9 @@ Proof.
   intros. constructor; cbn; try reflexivity; try lia; auto; try (intros who []).
 Qed.
 
-Lemma inv_step : forall cap st op, 0 < cap -> Inv cap st -> Inv cap (istep cap st op).
+Lemma inv_step : forall rd cap st op, 0 < cap -> Inv cap st -> Inv cap (istep rd cap st op).
 Proof.
-  intros cap st op Hc [L C Z P U B]. destruct op as [user dom|]; cbn [istep].
+  intros rd cap st op Hc [L C Z P U B]. destruct op as [user dom|]; cbn [istep].
   - destruct (N.eqb_spec (i_cnt st) cap) as [E|E]; [constructor; assumption|].
     destruct (N.ltb_spec 1 (i_cnt st + 1)) as [G|G].
     + assert (0 < i_cnt st) by lia. constructor; cbn.
@@ -84,15 +84,15 @@ Proof.
         -- destruct (proj1 AD eq_refl) as [m M]. rewrite M in *. cbn in *. lia.
 Qed.
 
-Lemma inv_run : forall cap ops st, 0 < cap -> Inv cap st -> Inv cap (irun cap st ops).
+Lemma inv_run : forall rd cap ops st, 0 < cap -> Inv cap st -> Inv cap (irun rd cap st ops).
 Proof.
-  intros cap ops. induction ops as [|op r IH]; intros st Hc I; cbn [irun fold_left]; [exact I|].
+  intros rd cap ops. induction ops as [|op r IH]; intros st Hc I; cbn [irun fold_left]; [exact I|].
   apply IH; [exact Hc|]. apply inv_step; assumption.
 Qed.
 
-Lemma cnt_step : forall cap st op, i_cnt (istep cap st op) = count_after cap (i_cnt st) op.
+Lemma cnt_step : forall rd cap st op, i_cnt (istep rd cap st op) = count_after cap (i_cnt st) op.
 Proof.
-  intros cap st op. destruct op as [user dom|]; cbn [istep count_after].
+  intros rd cap st op. destruct op as [user dom|]; cbn [istep count_after].
   - destruct (N.eqb_spec (i_cnt st) cap); [reflexivity|].
     destruct (N.ltb_spec 1 (i_cnt st + 1)); [reflexivity|].
     destruct (is_none (i_mgr st)); [destruct user|]; reflexivity.
@@ -100,16 +100,16 @@ Proof.
     destruct (N.ltb_spec 0 (i_cnt st - 1)); cbn; lia.
 Qed.
 
-Lemma cnt_run : forall cap ops st, i_cnt (irun cap st ops) = fold_left (count_after cap) ops (i_cnt st).
+Lemma cnt_run : forall rd cap ops st, i_cnt (irun rd cap st ops) = fold_left (count_after cap) ops (i_cnt st).
 Proof.
-  intros cap ops. induction ops as [|op r IH]; intros st; cbn [irun fold_left]; [reflexivity|].
+  intros rd cap ops. induction ops as [|op r IH]; intros st; cbn [irun fold_left]; [reflexivity|].
   unfold irun in IH. rewrite IH, cnt_step. reflexivity.
 Qed.
 
 (** the DOM heap parameters only change through an Initialize that carries them *)
 Definition no_dom_args (op : iop) : Prop := match op with Init _ (Some _) => False | _ => True end.
 
-Lemma dom_step : forall cap st op, no_dom_args op -> i_dom (istep cap st op) = i_dom st.
+Lemma dom_step : forall cap st op, no_dom_args op -> i_dom (istep None cap st op) = i_dom st.
 Proof.
   intros cap st op H. destruct op as [user [d|]|]; cbn [no_dom_args] in H; [contradiction| |]; cbn [istep].
   - destruct (i_cnt st =? cap); [reflexivity|]. destruct (1 <? i_cnt st + 1); [reflexivity|].
@@ -117,21 +117,21 @@ Proof.
   - destruct (i_cnt st =? 0); [reflexivity|]. destruct (0 <? i_cnt st - 1); reflexivity.
 Qed.
 
-Lemma dom_run : forall cap ops st, Forall no_dom_args ops -> i_dom (irun cap st ops) = i_dom st.
+Lemma dom_run : forall cap ops st, Forall no_dom_args ops -> i_dom (irun None cap st ops) = i_dom st.
 Proof.
   intros cap ops. induction ops as [|op r IH]; intros st F; cbn [irun fold_left]; [reflexivity|].
   inversion F; subst. unfold irun in IH. rewrite IH by assumption. apply dom_step. assumption.
 Qed.
 
-Lemma initterm_main : forall cap d ops, 0 < cap ->
-  let st := irun cap (pristine d) ops in
+Lemma initterm_main : forall rd cap d ops, 0 < cap ->
+  let st := irun rd cap (pristine d) ops in
   (i_live st = true <-> 0 < i_cnt st) /\
   i_cnt st = fold_left (count_after cap) ops 0 /\
   (i_cnt st = 0 -> i_mgr st = GmNone /\ i_adopted st = true /\ i_live st = false) /\
   (forall who, In (EDeleteMgr who) (i_log st) -> who = GmOwn) /\
   news (i_log st) = (dels (i_log st) + (match i_mgr st with GmOwn => 1 | _ => 0 end))%nat.
 Proof.
-  intros cap d ops Hc st. destruct (inv_run cap ops (pristine d) Hc (inv_pristine cap d)) as [L C Z P U B].
+  intros rd cap d ops Hc st. destruct (inv_run rd cap ops (pristine d) Hc (inv_pristine cap d)) as [L C Z P U B].
   fold st in L, C, Z, P, U, B. repeat split.
   - rewrite L. intros H. apply N.ltb_lt. exact H.
   - rewrite L. intros H. apply N.ltb_lt. exact H.
@@ -143,15 +143,44 @@ Proof.
   - exact B.
 Qed.
 
-Lemma extra_term_noop : forall cap st, i_cnt st = 0 -> istep cap st Term = st.
-Proof. intros cap st H. cbn [istep]. rewrite H. reflexivity. Qed.
+Lemma extra_term_noop : forall rd cap st, i_cnt st = 0 -> istep rd cap st Term = st.
+Proof. intros rd cap st H. cbn [istep]. rewrite H. reflexivity. Qed.
 
 Lemma pristine_again : forall cap d ops, 0 < cap -> Forall no_dom_args ops ->
-  let st := irun cap (pristine d) ops in
+  let st := irun None cap (pristine d) ops in
   i_cnt st = 0 -> st = {| i_cnt := 0; i_mgr := GmNone; i_adopted := true; i_live := false; i_dom := d; i_log := i_log st |}.
 Proof.
   intros cap d ops Hc F st Z0.
-  destruct (initterm_main cap d ops Hc) as [_ [_ [Z _]]]. fold st in Z. destruct (Z Z0) as [M [A L]].
+  destruct (initterm_main None cap d ops Hc) as [_ [_ [Z _]]]. fold st in Z. destruct (Z Z0) as [M [A L]].
   assert (D : i_dom st = d) by (unfold st; rewrite dom_run by assumption; reflexivity).
+  destruct st; cbn in *. subst. reflexivity.
+Qed.
+
+(** with Terminate restoring the defaults [d] the DOM heap parameters are [d] whenever the count is 0, for every sequence *)
+Lemma dom_zero_step : forall cap d st op, 0 < cap -> (i_cnt st = 0 -> i_dom st = d) ->
+  i_cnt (istep (Some d) cap st op) = 0 -> i_dom (istep (Some d) cap st op) = d.
+Proof.
+  intros cap d st op Hc H. destruct op as [user dom|]; cbn [istep].
+  - destruct (N.eqb_spec (i_cnt st) cap) as [E|E]; [exact H|].
+    destruct (N.ltb_spec 1 (i_cnt st + 1)); [cbn; lia|].
+    destruct (is_none (i_mgr st)); [destruct user|]; cbn; lia.
+  - destruct (N.eqb_spec (i_cnt st) 0) as [E|E]; [exact H|].
+    destruct (N.ltb_spec 0 (i_cnt st - 1)); cbn; [lia|reflexivity].
+Qed.
+
+Lemma dom_zero_run : forall cap d ops st, 0 < cap -> (i_cnt st = 0 -> i_dom st = d) ->
+  i_cnt (irun (Some d) cap st ops) = 0 -> i_dom (irun (Some d) cap st ops) = d.
+Proof.
+  intros cap d ops. induction ops as [|op r IH]; intros st Hc H; cbn [irun fold_left]; [exact H|].
+  apply IH; [exact Hc|]. apply dom_zero_step; assumption.
+Qed.
+
+Lemma pristine_again_fixed : forall cap d ops, 0 < cap ->
+  let st := irun (Some d) cap (pristine d) ops in
+  i_cnt st = 0 -> st = {| i_cnt := 0; i_mgr := GmNone; i_adopted := true; i_live := false; i_dom := d; i_log := i_log st |}.
+Proof.
+  intros cap d ops Hc st Z0.
+  destruct (initterm_main (Some d) cap d ops Hc) as [_ [_ [Z _]]]. fold st in Z. destruct (Z Z0) as [M [A L]].
+  assert (D : i_dom st = d) by (apply dom_zero_run; [exact Hc|reflexivity|exact Z0]).
   destruct st; cbn in *. subst. reflexivity.
 Qed.
